@@ -10,6 +10,15 @@ E  every layout (bounded, see RULE) over the fixed skeleton
        <idf>/examples/pb           sibling project
        <idf>/examples/common       no project (orphan)
 
+   plus the DEEP skeleton below project pa (nested projects two and three directory levels below pa's root, a project
+   nested in the nested project, plain directories in between and a plain directory that bears the base name of a
+   project directly below pa's root):
+
+       <idf>/examples/pa/apps              directory of pa            <idf>/examples/pa/apps/grp        directory of pa
+       <idf>/examples/pa/apps/unit         project nested in pa (2)   <idf>/examples/pa/apps/grp/deep   project nested in pa (3)
+       <idf>/examples/pa/apps/unit/main    directory of that project  <idf>/examples/pa/nested/inner    project nested in pa/nested
+       <idf>/examples/pa/main/nested       directory of pa (same base name as the project pa/nested)
+
    of sdkconfig.rename files (old names X and/or Y) and sdkconfig.defaults-style files (assigning CONFIG_X and/or
    CONFIG_Y), every non-empty ordered selection of the defaults files as the argument list, invocation variants
    (IDF_PATH from the environment / cwd fallback, explicitly passed rename files, --includes directories), driven through
@@ -43,6 +52,11 @@ RULE = (
     "over 7 places, canonical under the X<->Y symmetry. quick: one-option layouts with (r<=2,d<=2), (r<=1,d=3) or (r=3,d=1) plus "
     "two-option layouts with r<=2, d<=2, r+d<=3 (r+d=3: every file names one option). thorough: all one-option layouts r<=3, d<=3 "
     "plus the two-option layouts with r+d<=4 (d=3: each defaults file names one option; r=d=2: each rename file names one option). "
+    "DEEP family: the same enumeration over the 10 places of project pa's subtree {pa, pa/main, pa/main/nested (plain), pa/nested (project), "
+    "pa/nested/inner (project), pa/apps (plain), pa/apps/unit (project, 2 levels below pa), pa/apps/unit/main, pa/apps/grp (plain), "
+    "pa/apps/grp/deep (project, 3 levels below pa)}: quick one-option r<=2, d<=2 plus two-option r<=2, d=1 (r=2: every rename file names one "
+    "option), root not a project; thorough one-option r<=3, d<=2 and (r<=1, d=3) plus two-option r+d<=3 (r+d=3: every file names one "
+    "option), root is / is not a project; --includes for this family: none / pa/apps / pa/apps/unit [thorough: pa/nested, pa/apps/grp, pa]. "
     "Per layout: invocation variants (IDF_PATH from the environment / cwd fallback; explicit rename files none / each / all; "
     "--includes none / examples / examples/pa [thorough: root, examples/common, examples/pa/nested, two dirs]) x EVERY non-empty "
     "ordered selection of the defaults files as argument list (variants with a single explicit rename file, which only changes "
@@ -61,10 +75,17 @@ ASSUMPTIONS = [
 PLACES = ("", "components/c", "examples/pa", "examples/pa/main", "examples/pa/nested", "examples/pb", "examples/common",
           # deeper directories below a non-root project directory and below the orphan directory: they only carry defaults
           # files of the "chain" layouts (a lookup in D, then in D/S, then in D/S/T)
-          "examples/pa/main/sub", "examples/pa/main/sub/deep", "examples/common/sub", "examples/common/sub/deep")
+          "examples/pa/main/sub", "examples/pa/main/sub/deep", "examples/common/sub", "examples/common/sub/deep",
+          # DEEP family: nested projects two and three directory levels below the root of project pa, plain directories of pa in
+          # between, a project nested in the nested project, and a plain directory of pa that has the base name of a project
+          # sitting directly below pa's root
+          "examples/pa/main/nested", "examples/pa/nested/inner", "examples/pa/apps", "examples/pa/apps/unit",
+          "examples/pa/apps/unit/main", "examples/pa/apps/grp", "examples/pa/apps/grp/deep")
 N_ENUM_PLACES = 7
 CHAINS = (("examples/pa/main", "examples/pa/main/sub", "examples/pa/main/sub/deep"), ("examples/common", "examples/common/sub", "examples/common/sub/deep"))
-PROJECTS = ("examples/pa", "examples/pa/nested", "examples/pb")
+PROJECTS = ("examples/pa", "examples/pa/nested", "examples/pb", "examples/pa/nested/inner", "examples/pa/apps/unit", "examples/pa/apps/grp/deep")
+DEEP_PLACES = ("examples/pa", "examples/pa/main", "examples/pa/main/nested", "examples/pa/nested", "examples/pa/nested/inner",
+               "examples/pa/apps", "examples/pa/apps/unit", "examples/pa/apps/unit/main", "examples/pa/apps/grp", "examples/pa/apps/grp/deep")
 DEFAULTS_NAME = {
     "": "sdkconfig.defaults",
     "components/c": "sdkconfig.defaults.esp32",
@@ -77,10 +98,19 @@ DEFAULTS_NAME = {
     "examples/pa/main/sub/deep": "sdkconfig.ci.deep",
     "examples/common/sub": "sdkconfig.ci",
     "examples/common/sub/deep": "sdkconfig.defaults",
+    "examples/pa/main/nested": "sdkconfig.defaults",
+    "examples/pa/nested/inner": "sdkconfig.ci.inner",
+    "examples/pa/apps": "sdkconfig.ci.apps",
+    "examples/pa/apps/unit": "sdkconfig.defaults",
+    "examples/pa/apps/unit/main": "sdkconfig.ci",
+    "examples/pa/apps/grp": "sdkconfig.defaults.esp32",
+    "examples/pa/apps/grp/deep": "sdkconfig.defaults",
 }
 CONTENTS = ("X", "Y", "XY")
 INCLUDE_DIRS_QUICK = (("examples",), ("examples/pa",))
 INCLUDE_DIRS_THOROUGH = INCLUDE_DIRS_QUICK + (("",), ("examples/common",), ("examples/pa/nested",), ("examples/pa", "examples/common"))
+DEEP_INCLUDE_DIRS_QUICK = (("examples/pa/apps",), ("examples/pa/apps/unit",))
+DEEP_INCLUDE_DIRS_THOROUGH = DEEP_INCLUDE_DIRS_QUICK + (("examples/pa/nested",), ("examples/pa/apps/grp",), ("examples/pa",))
 
 _mod = None
 
@@ -152,9 +182,12 @@ def spec_verdict(layout: dict, variant: tuple, fplace: str, literal_root: bool =
 # --------------------------------------------------------------------------------------------------
 
 
-def _assignments(max_files: int, contents: Tuple[str, ...], min_files: int = 0):
+def _assignments(max_files: int, contents: Tuple[str, ...], min_files: int = 0, universe: Optional[Tuple[int, ...]] = None):
+    """all assignments of a content to <= max_files places of the universe (indices into PLACES)"""
+    if universe is None:
+        universe = tuple(range(N_ENUM_PLACES))
     for k in range(min_files, max_files + 1):
-        for places in itertools.combinations(range(N_ENUM_PLACES), k):
+        for places in itertools.combinations(universe, k):
             for cs in itertools.product(contents, repeat=k):
                 yield tuple(zip(places, cs))
 
@@ -193,6 +226,38 @@ def in_tier(ren, dfl, tier: str) -> bool:
     return True
 
 
+def in_tier_deep(ren, dfl, tier: str) -> bool:
+    r, d = len(ren), len(dfl)
+    if _one_option(ren, dfl):
+        if tier == "thorough":
+            return (r <= 3 and d <= 2) or (r <= 1 and d == 3)
+        return r <= 2 and d <= 2
+    if tier == "thorough":
+        if r + d > 3:
+            return False
+        return r + d < 3 or (_no_xy(ren) and _no_xy(dfl))
+    return r <= 2 and d == 1 and (r < 2 or _no_xy(ren))
+
+
+def deep_layouts(tier: str):
+    uni = tuple(PLACES.index(p) for p in DEEP_PLACES)
+    rens = list(_assignments(3, CONTENTS, 0, uni))
+    dfls = list(_assignments(3, CONTENTS, 1, uni))
+    for ren in rens:
+        for dfl in dfls:
+            if not in_tier_deep(ren, dfl, tier):
+                continue
+            if (ren, dfl) > (_swap(ren), _swap(dfl)):
+                continue  # X<->Y mirror image is enumerated instead
+            for rootproj in (False, True) if tier == "thorough" else (False,):
+                yield {
+                    "family": "deep",
+                    "rootproj": rootproj,
+                    "renames": {PLACES[p]: c for p, c in ren},
+                    "defaults": {PLACES[p]: c for p, c in dfl},
+                }
+
+
 def layouts(tier: str):
     rens = list(_assignments(3, CONTENTS))
     dfls = list(_assignments(3, CONTENTS, 1))
@@ -213,6 +278,7 @@ def layouts(tier: str):
         for ren in _assignments(2, ("X",)):
             for rootproj in (False, True):
                 yield {"rootproj": rootproj, "renames": {PLACES[p]: c for p, c in ren}, "defaults": {p: "X" for p in chain}}
+    yield from deep_layouts(tier)
 
 
 def variants(layout: dict, tier: str) -> List[Tuple[tuple, bool]]:
@@ -220,12 +286,16 @@ def variants(layout: dict, tier: str) -> List[Tuple[tuple, bool]]:
     ordered selection; otherwise singletons + the full list forward and reversed (variants that only change the global set)."""
     rp = tuple(layout["renames"])
     thorough = tier == "thorough"
-    incs = INCLUDE_DIRS_THOROUGH if thorough else INCLUDE_DIRS_QUICK
+    deep = layout.get("family") == "deep"
+    if deep:
+        incs = DEEP_INCLUDE_DIRS_THOROUGH if thorough else DEEP_INCLUDE_DIRS_QUICK
+    else:
+        incs = INCLUDE_DIRS_THOROUGH if thorough else INCLUDE_DIRS_QUICK
     out: List[Tuple[tuple, bool]] = [(("env", (), ()), True)]
     for inc in incs:
         out.append((("env", (), inc), True))
     out.append((("cwd", (), ()), thorough))
-    out.append((("cwd", (), ("examples",)), thorough))
+    out.append((("cwd", (), ("examples/pa/apps",) if deep else ("examples",)), thorough))
     for p in rp:
         out.append((("env", (p,), ()), False))
     if len(rp) >= 2:
@@ -415,7 +485,9 @@ def relation(layout: dict, fplace: str, opt_places: List[str]) -> str:
         elif theirs == mine:
             rels.add("own_project")
         elif mine is not None and under(theirs, mine):
-            rels.add("nested_project")
+            # levels between the file's project and the nested project that holds the rename file
+            lv = theirs.count("/") - mine.count("/")
+            rels.add("nested_project" if lv == 1 else f"nested_project_{lv}_levels_down")
         elif mine is not None and under(mine, theirs):
             rels.add("enclosing_project")
         else:
